@@ -189,6 +189,10 @@ def one_case(ctx, k):
             variant("stdout", base + ins, [("-", 1)])
             variant("stdout --fasta", base + ["--fasta"] + ins, [("-", 1)], expect_fmt="fasta")
             variant("stdout --fasta cores=2", base + ["--fasta", "-j", "2"] + ins, [("-", 1)], expect_fmt="fasta")
+            # --fasta is documented for standard output: a named output still follows its name / the input format
+            variant("--fasta name=.txt", base + ["--fasta", "-o", "ff.txt"] + ins, [("ff.txt", 1)])
+            variant("--fasta name=.dat.gz", base + ["--fasta", "-o", "ff.dat.gz"] + ins, [("ff.dat.gz", 1)])
+            variant("--fasta name=.fastq cores=2", base + ["--fasta", "-j", "2", "-o", "ff.fastq"] + ins, [("ff.fastq", 1)])
         # --- layout
         if paired:
             inter = fastx.format_fastq([x for pair in zip(b["recs1"], b["recs2"]) for x in pair])
